@@ -24,6 +24,11 @@ def rand_json(rng, depth=0):
     return {rng.choice(["a", "b", "ключ", "k y", "z"]) + str(i): rand_json(rng, depth + 1) for i in range(rng.randrange(0, 4))}
 
 
+def jeq(a, b) -> bool:
+    """JSON values equal *as JSON* (Python's `==` identifies True with 1 and 1 with 1.0)."""
+    return json.dumps(a, sort_keys=True) == json.dumps(b, sort_keys=True)
+
+
 def run_cases(args):
     sp.sedpack()
     import random, sedpack
@@ -55,13 +60,13 @@ def run_cases(args):
         root = base / f"d{i}"
         try:
             ds = Dataset.create(root, md, st)
-            shard_md = {"s": rand_json(rng), "t": "ü"}
+            shard_md = {"s": rand_json(rng), "t": "ü", "flag": bool(i % 2), "none": None, "big": 2 ** 40 + i, "ratio": 0.5, "nested": {"ok": True, "l": [False, 1, 1.0]}}
             with ds.filler() as f:
                 for v in range(3):
                     f.write_example(values={"a": sp.np.array([v, v], dtype=sp.np.int32), "bé": sp.np.float32(1.5)}, split="train", custom_metadata=shard_md)
             re = Dataset(root)
             same = re._dataset_info == ds._dataset_info
-            same_json = json.loads(re._dataset_info.model_dump_json()) == json.loads(ds._dataset_info.model_dump_json())
+            same_json = jeq(json.loads(re._dataset_info.model_dump_json()), json.loads(ds._dataset_info.model_dump_json()))
             sm = [si.custom_metadata for si in re.shard_info_iterator("train")]
             # the writer records something it only knows after filling (and nothing else changes), saves the description, reopens
             md2 = Metadata(description=text() + " (edited)", dataset_license=md.dataset_license, dataset_version=text(), download_from=text(),
@@ -69,9 +74,10 @@ def run_cases(args):
             ds.metadata = md2
             ds.write_config(updated_infos=[])
             re2 = Dataset(root)
-            edited_same = json.loads(re2._dataset_info.model_dump_json()) == json.loads(ds._dataset_info.model_dump_json())
+            edited_same = jeq(json.loads(re2._dataset_info.model_dump_json()), json.loads(ds._dataset_info.model_dump_json()))
             out["descr"].append({"i": i, "fmt": fmt, "comp": comp, "same": bool(same), "same_json": same_json, "edited_same": bool(edited_same),
-                                 "shard_md_ok": all(m == shard_md for m in sm) and len(sm) > 0, "md": json.loads(md.model_dump_json())})
+                                 # (type-exact: `True == 1` in Python, a boolean that comes back as a number is a different JSON value)
+                                 "shard_md_ok": all(json.dumps(m, sort_keys=True) == json.dumps(shard_md, sort_keys=True) for m in sm) and len(sm) > 0, "md": json.loads(md.model_dump_json())})
         except Exception as e:  # noqa: BLE001
             out["descr"].append({"i": i, "fmt": fmt, "comp": comp, "error": f"{type(e).__name__}: {str(e)[:200]}"})
     # ---- moves / copies
@@ -120,7 +126,7 @@ def run_cases(args):
                     d2 = Dataset(link)
                 else:
                     d2 = Dataset(str(target) if i % 2 else target)
-                r["info_same"] = json.loads(d2._dataset_info.model_dump_json()) == ref_info
+                r["info_same"] = jeq(json.loads(d2._dataset_info.model_dump_json()), ref_info)
                 d2.check(show_progressbar=False); r["check"] = "ok"
                 r["read_same"] = {s: sp.read_ids(d2, s) == ref[s] for s in ref}
                 with DatasetFiller(d2, relative_path_from_split=Path("a")) as f:
